@@ -16,6 +16,26 @@ Definition abs_vecw (H : list N -> N) (w : nat) (s : store) (f : N) : list (list
 Definition vecw_inv (H : list N -> N) (w : nat) (s : store) (f : N) : Prop :=
   forall i, i < N.of_nat w * abs_len s f -> sget s (hash_b256 H f + i / 4) <> None.
 
+(* vecw_step of Step.v with the reference-type flag as a parameter (vecw_step = vecw_step_g true) *)
+Definition vecw_step_g (H : list N -> N) (isref : bool) (w : nat) (s : store) (f : N) (o : wop) : outcome (store * list N) :=
+  match o with
+  | WPush v => do s' <- vec_push H w isref s f v; Ok (s', [])
+  | WPop => do r <- vec_pop H w isref s f; Ok (fst r, out_opt (snd r))
+  | WGet i => do r <- vec_get H w isref s f i; Ok (s, out_opt2 r)
+  | WSet i v => do s' <- vec_set H w isref s f i v; Ok (s', [])
+  | WInsert i v => do s' <- vec_insert H w isref s f i v; Ok (s', [])
+  | WRemove i => do r <- vec_remove H w isref s f i; Ok r
+  | WSwap i j => do s' <- vec_swap H w isref s f i j; Ok (s', [])
+  | WSwapRemove i => do r <- vec_swap_remove H w isref s f i; Ok r
+  | WLen => do n <- vec_len s f; Ok (s, [n])
+  | WFirst => do r <- vec_first H w isref s f; Ok (s, out_opt2 r)
+  | WLast => do r <- vec_last H w isref s f; Ok (s, out_opt2 r)
+  | WReverse => do s' <- vec_reverse H w isref s f; Ok (s', [])
+  | WFill v => do s' <- vec_fill H w isref s f v; Ok (s', [])
+  | WResize n v => do s' <- vec_resize H w isref s f n v; Ok (s', [])
+  | WLoad => do r <- vec_load_vec H w s f; Ok (s, concat r)
+  end.
+
 Definition settoE (G : N -> list N) (i : N) (v : list N) : N -> list N := fun j => if j =? i then v else G j.
 
 Section VecW.
@@ -576,4 +596,228 @@ Proof.
 Qed.
 
 
+(* ---------- refinement of the list model (lists of word lists) ---------- *)
+Local Notation len := (lenG (list N)).
+Local Notation nthN := (nthG (list N) []).
+Local Notation list_ext_N := (list_ext_G (list N) []).
+Local Notation len_map_Nseq := (lenG_map_Nseq (list N)).
+Local Notation nthN_map_Nseq := (nthG_map_Nseq (list N) []).
+Local Notation len_app := (lenG_app (list N)).
+Local Notation nthN_app_l := (nthG_app_l (list N) []).
+Local Notation nthN_app_r := (nthG_app_r (list N) []).
+Local Notation len_firstn := (lenG_firstn (list N)).
+Local Notation len_skipn := (lenG_skipn (list N)).
+Local Notation nthN_firstn := (nthG_firstn (list N) []).
+Local Notation nthN_skipn := (nthG_skipn (list N) []).
+Local Notation len_removelast := (lenG_removelast (list N)).
+Local Notation nthN_removelast := (nthG_removelast (list N) []).
+Local Notation last_nthN := (last_nthG (list N) []).
+Local Notation len_upd := (lenG_upd (list N)).
+Local Notation nthN_upd := (nthG_upd (list N) []).
+Local Notation len_rev := (lenG_rev (list N)).
+Local Notation nthN_rev := (nthG_rev (list N) []).
+Local Notation len_repeat := (lenG_repeat (list N)).
+Local Notation nthN_repeat := (nthG_repeat (list N) []).
+Local Notation len_cons := (lenG_cons (list N)).
+Local Notation nthN_cons_0 := (nthG_cons_0 (list N) []).
+Local Notation nthN_cons_S := (nthG_cons_S (list N) []).
+
+Lemma finish s' L' g' l' :
+  vst s' L' g' -> allset s' L' -> L' <= EMAX -> len l' = L' -> (forall i, i < L' -> nthN l' i = g' i) ->
+  abs_vecw H w s' f = l' /\ vecw_inv H w s' f /\ abs_len s' f = len l'.
+Proof.
+  intros Hv Ha HL Hlen Hn. split; [|split].
+  - rewrite (abs_of_vst _ _ _ Hv HL). symmetry. apply list_ext_N.
+    + rewrite len_map_Nseq. exact Hlen.
+    + intros i Hi. rewrite nthN_map_Nseq by lia. apply Hn. lia.
+  - destruct Hv as [Hl _]. apply vecw_inv_allset; rewrite Hl; assumption.
+  - destruct Hv as [Hl _]. rewrite Hl, Hlen. reflexivity.
+Qed.
+
+(* values must have the element width; load_vec (and store_vec / iter) are not covered by the proof;
+   resize needs its target below EMAX *)
+Definition wop_proved (o : wop) : Prop :=
+  match o with
+  | WPush v | WSet _ v | WInsert _ v | WFill v => length v = w
+  | WResize n v => length v = w /\ n < EMAX
+  | WLoad => False
+  | _ => True
+  end.
+
+Theorem vecw_refines o :
+  let s := s0 in
+  vecw_inv H w s f -> abs_len s f + 1 < EMAX -> wop_proved o ->
+  match spec_vecw (abs_vecw H w s f) o with
+  | Some (l', out) =>
+    exists s' mo, vecw_step_g H isref w s f o = Ok (s', mo) /\ abs_vecw H w s' f = l' /\ vecw_inv H w s' f
+                  /\ abs_len s' f = len l' /\ (forall so, out = Some so -> mo = so) /\ outsideW s'
+  | None => vecw_step_g H isref w s f o = Err 1
+  end.
+Proof.
+  intros s Hinv HL Hop.
+  pose proof vst_init as Hv. fold s in Hv. apply vecw_inv_allset in Hinv; [|lia]. rename Hinv into Ha.
+  set (L := abs_len s f) in *. set (g := eread s) in *.
+  assert (Habs : abs_vecw H w s f = map g (Nseq L)) by (apply abs_of_vst; [exact Hv|lia]).
+  remember (abs_vecw H w s f) as l eqn:El. clear El.
+  assert (Hlen : len l = L) by (rewrite Habs; apply len_map_Nseq).
+  assert (Hn : forall i, i < L -> nthN l i = g i) by (intros i Hi; rewrite Habs; apply nthN_map_Nseq; exact Hi).
+  clear Habs.
+  destruct o as [v| |i|i v|i v|i|i j|i| | | | |v|n v| ]; cbn [spec_vecw vecw_step_g wop_proved] in *; change (N.of_nat (length l)) with (len l); rewrite ?Hlen.
+  - (* push *)
+    destruct (push_ok s L g v Hop Hv Ha) as [s' [Hr [Hv' Ha']]]; [lia|]. rewrite Hr. cbn [bind].
+    exists s', []. split; [reflexivity|].
+    destruct (finish s' (L + 1) (settoE g L v) (l ++ [v]) Hv' Ha') as [A [B C]].
+    + lia.
+    + rewrite len_app, Hlen. reflexivity.
+    + intros i Hi. unfold settoE. destruct (N.eqb_spec i L) as [E|E].
+      * rewrite nthN_app_r by lia. replace (i - len l) with 0 by lia. reflexivity.
+      * rewrite nthN_app_l by lia. apply Hn. lia.
+    + repeat split; try assumption; try (apply Hv'). intros so E. injection E as E. auto.
+  - (* pop *)
+    destruct (pop_ok s L g Hv Ha) as [s' [Hr [Hv' Ha']]]; [lia|]. rewrite Hr. cbn [bind fst snd].
+    destruct l as [|x r].
+    + assert (HL0 : L = 0) by (rewrite <- Hlen; reflexivity).
+      replace (L =? 0) with true by (symmetry; apply N.eqb_eq; exact HL0).
+      exists s', [0]. split; [reflexivity|].
+      destruct (finish s' (L - 1) g [] Hv' Ha') as [A [B C]]; [lia|rewrite HL0; reflexivity|intros i Hi; lia|].
+      repeat split; try assumption; try (apply Hv'). intros so E. injection E as E. auto.
+    + assert (HL0 : L <> 0) by (rewrite <- Hlen, len_cons; lia).
+      replace (L =? 0) with false by (symmetry; apply N.eqb_neq; exact HL0).
+      exists s', (1 :: g (L - 1)). split; [reflexivity|].
+      destruct (finish s' (L - 1) g (removelast (x :: r)) Hv' Ha') as [A [B C]].
+      * lia.
+      * rewrite len_removelast, Hlen. reflexivity.
+      * intros i Hi. rewrite nthN_removelast by (rewrite Hlen; exact Hi). apply Hn. lia.
+      * repeat split; try assumption; try (apply Hv'). intros so E. injection E as E. subst so.
+        change (match r with [] => x | _ :: _ => last r [] end) with (last (x :: r) []).
+        rewrite last_nthN, Hlen. rewrite Hn by lia. reflexivity.
+  - (* get *)
+    rewrite (get_ok s L g i Hv Ha) by lia. cbn [bind].
+    exists s. eexists. split; [reflexivity|].
+    destruct (finish s L g l Hv Ha) as [A [B C]]; [lia|exact Hlen|exact Hn|].
+    repeat split; try assumption; try (apply Hv). intros so E. injection E as E. subst so.
+    destruct (N.ltb_spec i L) as [E1|E1]; destruct (N.leb_spec L i) as [E2|E2]; try lia; cbn [out_opt2]; [|reflexivity].
+    f_equal. symmetry. apply Hn. exact E1.
+  - (* set *)
+    pose proof (set_ok s L g i v Hop Hv Ha) as Hs. destruct (N.ltb_spec i L) as [E|E].
+    + destruct Hs as [s' [Hr [Hv' Ha']]]; [lia|]. rewrite Hr. cbn [bind].
+      exists s', []. split; [reflexivity|].
+      destruct (finish s' L (settoE g i v) (upd (N.to_nat i) v l) Hv' Ha') as [A [B C]].
+      * lia.
+      * rewrite len_upd. exact Hlen.
+      * intros k Hk. rewrite nthN_upd by lia. unfold settoE. destruct (k =? i); [reflexivity|apply Hn; exact Hk].
+      * repeat split; try assumption; try (apply Hv'). intros so E'. injection E' as E'. auto.
+    + rewrite Hs by lia. reflexivity.
+  - (* insert *)
+    pose proof (insert_ok s L g i v Hop Hv Ha) as Hs. destruct (N.leb_spec i L) as [E|E].
+    + destruct Hs as [s' [Hr [Hv' Ha']]]; [lia|]. rewrite Hr. cbn [bind].
+      exists s', []. split; [reflexivity|].
+      destruct (finish s' (L + 1) (settoE (shiftufE g i (L - i)) i v) (firstn (N.to_nat i) l ++ v :: skipn (N.to_nat i) l) Hv' Ha') as [A [B C]].
+      * lia.
+      * rewrite len_app, len_cons, len_skipn, len_firstn by lia. lia.
+      * intros k Hk. unfold settoE, shiftufE.
+        assert (Hc : k < i \/ k = i \/ i < k) by lia. destruct Hc as [Hc|[Hc|Hc]].
+        -- rewrite nthN_app_l by (rewrite len_firstn; lia). rewrite nthN_firstn by lia. decide_cmp. apply Hn. lia.
+        -- subst k. rewrite nthN_app_r by (rewrite len_firstn; lia). rewrite len_firstn by lia.
+           replace (i - i) with 0 by lia. rewrite nthN_cons_0. decide_cmp.
+        -- rewrite nthN_app_r by (rewrite len_firstn; lia). rewrite len_firstn by lia.
+           rewrite nthN_cons_S by lia. rewrite nthN_skipn. decide_cmp.
+           replace (N.of_nat (N.to_nat i) + (k - i - 1)) with (k - 1) by lia. apply Hn. lia.
+      * repeat split; try assumption; try (apply Hv'). intros so E'. injection E' as E'. auto.
+    + rewrite Hs by lia. reflexivity.
+  - (* remove *)
+    pose proof (remove_ok s L g i Hv Ha) as Hs. destruct (N.ltb_spec i L) as [E|E].
+    + destruct Hs as [s' [Hr [Hv' Ha']]]; [lia|]. rewrite Hr. cbn [bind].
+      exists s', (g i). split; [reflexivity|].
+      destruct (finish s' (L - 1) (shiftdfE g i (L - 1 - i)) (firstn (N.to_nat i) l ++ skipn (S (N.to_nat i)) l) Hv' Ha') as [A [B C]].
+      * lia.
+      * rewrite len_app, len_skipn, len_firstn by lia. lia.
+      * intros k Hk. unfold shiftdfE.
+        assert (Hc : k < i \/ i <= k) by lia. destruct Hc as [Hc|Hc].
+        -- rewrite nthN_app_l by (rewrite len_firstn; lia). rewrite nthN_firstn by lia. decide_cmp. apply Hn. lia.
+        -- rewrite nthN_app_r by (rewrite len_firstn; lia). rewrite len_firstn by lia. rewrite nthN_skipn. decide_cmp.
+           replace (N.of_nat (S (N.to_nat i)) + (k - i)) with (k + 1) by lia. apply Hn. lia.
+      * repeat split; try assumption; try (apply Hv'). intros so E'. injection E' as E'. subst so. symmetry. apply Hn. exact E.
+    + rewrite Hs by lia. reflexivity.
+  - (* swap *)
+    pose proof (swap_ok s L g i j Hv Ha) as Hs.
+    destruct (N.ltb_spec i L) as [Ei|Ei]; [destruct (N.ltb_spec j L) as [Ej|Ej]|]; cbn [andb] in *.
+    + destruct Hs as [s' [Hr [Hv' Ha']]]; [lia|]. rewrite Hr. cbn [bind].
+      exists s', []. split; [reflexivity|].
+      destruct (finish s' L (settoE (settoE g i (g j)) j (g i))
+                  (upd (N.to_nat j) (nth (N.to_nat i) l []) (upd (N.to_nat i) (nth (N.to_nat j) l []) l)) Hv' Ha') as [A [B C]].
+      * lia.
+      * rewrite !len_upd. exact Hlen.
+      * intros k Hk. rewrite nthN_upd by (rewrite len_upd; lia). rewrite nthN_upd by lia. unfold settoE.
+        change (nth (N.to_nat i) l []) with (nthN l i). change (nth (N.to_nat j) l []) with (nthN l j).
+        rewrite !Hn by lia. reflexivity.
+      * repeat split; try assumption; try (apply Hv'). intros so E'. injection E' as E'. auto.
+    + rewrite Hs by lia. reflexivity.
+    + rewrite Hs by lia. reflexivity.
+  - (* swap_remove *)
+    pose proof (swap_remove_ok s L g i Hv Ha) as Hs. destruct (N.ltb_spec i L) as [E|E].
+    + destruct Hs as [s' [Hr [Hv' Ha']]]; [lia|]. rewrite Hr. cbn [bind].
+      exists s', (g i). split; [reflexivity|].
+      destruct (finish s' (L - 1) (settoE g i (g (L - 1))) (removelast (upd (N.to_nat i) (last l []) l)) Hv' Ha') as [A [B C]].
+      * lia.
+      * rewrite len_removelast, len_upd, Hlen. reflexivity.
+      * intros k Hk. rewrite nthN_removelast by (rewrite len_upd, Hlen; exact Hk). rewrite nthN_upd by lia.
+        unfold settoE. rewrite last_nthN, Hlen. rewrite !Hn by lia. reflexivity.
+      * repeat split; try assumption; try (apply Hv'). intros so E'. injection E' as E'. subst so. symmetry. apply Hn. exact E.
+    + rewrite Hs by lia. reflexivity.
+  - (* len *)
+    rewrite (len_ok s L g Hv). cbn [bind]. exists s, [L]. split; [reflexivity|].
+    destruct (finish s L g l Hv Ha) as [A [B C]]; [lia|exact Hlen|exact Hn|].
+    repeat split; try assumption; try (apply Hv). intros so E. injection E as E. auto.
+  - (* first *)
+    rewrite (first_ok s L g Hv Ha) by lia. cbn [bind]. exists s. eexists. split; [reflexivity|].
+    destruct (finish s L g l Hv Ha) as [A [B C]]; [lia|exact Hlen|exact Hn|].
+    repeat split; try assumption; try (apply Hv). intros so E. injection E as E. subst so.
+    destruct l as [|x r].
+    + replace (L =? 0) with true by (symmetry; apply N.eqb_eq; rewrite <- Hlen; reflexivity). reflexivity.
+    + assert (HL0 : L <> 0) by (rewrite <- Hlen, len_cons; lia).
+      replace (L =? 0) with false by (symmetry; apply N.eqb_neq; exact HL0). cbn [out_opt2].
+      rewrite <- Hn by lia. reflexivity.
+  - (* last *)
+    rewrite (last_ok s L g Hv Ha) by lia. cbn [bind]. exists s. eexists. split; [reflexivity|].
+    destruct (finish s L g l Hv Ha) as [A [B C]]; [lia|exact Hlen|exact Hn|].
+    repeat split; try assumption; try (apply Hv). intros so E. injection E as E. subst so.
+    destruct l as [|x r].
+    + replace (L =? 0) with true by (symmetry; apply N.eqb_eq; rewrite <- Hlen; reflexivity). reflexivity.
+    + assert (HL0 : L <> 0) by (rewrite <- Hlen, len_cons; lia).
+      replace (L =? 0) with false by (symmetry; apply N.eqb_neq; exact HL0). cbn [out_opt2].
+      change (match r with [] => x | _ :: _ => last r [] end) with (last (x :: r) []).
+      rewrite last_nthN, Hlen, Hn by lia. reflexivity.
+  - (* reverse *)
+    destruct (reverse_ok s L g Hv Ha) as [s' [Hr [Hv' Ha']]]; [lia|]. rewrite Hr. cbn [bind].
+    exists s', []. split; [reflexivity|].
+    destruct (finish s' L (revallE g L) (rev l) Hv' Ha') as [A [B C]].
+    + lia.
+    + rewrite len_rev. exact Hlen.
+    + intros k Hk. rewrite nthN_rev by lia. rewrite Hlen. unfold revallE. decide_cmp.
+      replace (L - k - 1) with (L - 1 - k) by lia. apply Hn. lia.
+    + repeat split; try assumption; try (apply Hv'). intros so E. injection E as E. auto.
+  - (* fill *)
+    destruct (fill_ok s L g v Hop Hv Ha) as [s' [Hr [Hv' Ha']]]; [lia|]. rewrite Hr. cbn [bind].
+    exists s', []. split; [reflexivity|].
+    destruct (finish s' L (fillfE g 0 L v) (repeat v (length l)) Hv' Ha') as [A [B C]].
+    + lia.
+    + rewrite len_repeat. exact Hlen.
+    + intros k Hk. rewrite nthN_repeat by (unfold lenG in Hlen; lia). unfold fillfE. decide_cmp.
+    + repeat split; try assumption; try (apply Hv'). intros so E. injection E as E. auto.
+  - (* resize *)
+    destruct Hop as [Hlv Hnn].
+    destruct (resize_ok s L g n v Hlv Hv Ha) as [s' [Hr [Hv' Ha']]]; [lia|exact Hnn|]. rewrite Hr. cbn [bind].
+    exists s', []. split; [reflexivity|].
+    destruct (finish s' n (fillfE g L (n - L) v) (if n <=? L then firstn (N.to_nat n) l else l ++ repeat v (N.to_nat (n - L))) Hv' Ha') as [A [B C]].
+    + lia.
+    + destruct (N.leb_spec n L) as [E|E]; [apply len_firstn; lia|]. rewrite len_app, len_repeat. lia.
+    + intros k Hk. unfold fillfE. destruct (N.leb_spec n L) as [E|E].
+      * rewrite nthN_firstn by lia. decide_cmp. apply Hn. lia.
+      * assert (Hc : k < L \/ L <= k) by lia. destruct Hc as [Hc|Hc].
+        -- rewrite nthN_app_l by lia. decide_cmp. apply Hn. lia.
+        -- rewrite nthN_app_r by lia. rewrite nthN_repeat by lia. decide_cmp.
+    + repeat split; try assumption; try (apply Hv'). intros so E. injection E as E. auto.
+  - destruct Hop.
+Qed.
 End VecW.
